@@ -24,11 +24,26 @@ Four ties (DESIGN.md 6/C02):
      documented order over the same neighbours with the documented formulas and
      the Python kernel classes — shipped equations and generated equation
      classes in the documented subset.
+ (d) options and histories: `Group(start_idx=, stop_idx=)` (integers with the
+     boundary values 0 / n / start == stop, names of constants / properties,
+     None) -- the limits of every destination block are evaluated on the real
+     arrays and compared with the documented range(start, stop) and with the
+     model; instance attributes of type int / bool / float with different values
+     per instance -- the attribute declarations of every wrapper class are
+     compared with the model and must hold the value of every instance;
+     SESSIONS: several evaluators built one after the other in ONE process whose
+     programs collide in every name a generator could key a memo by (same class
+     names with other attribute types / other method bodies / other array
+     types, same array and group names, other wiring, other limits, the same
+     program again); every member is checked like a single program, and its
+     generated source must be the one a fresh process generates.
 """
+import copy
 import hashlib
 import importlib
 import importlib.util
 import inspect
+import itertools
 import json
 import math
 import os
@@ -117,6 +132,13 @@ KERNEL_SYMS = ('WIJ', 'WI', 'WJ', 'DWIJ', 'DWI', 'DWJ', 'WDP', 'GHI', 'GHJ', 'GH
 #         'cond': {'lt'|'ge': v}   Group(condition=lambda t, dt: t < v  /  t >= v)
 #         'pre' / 'post': {'arr': array, 'prop': p, 'mul'|'add': c}
 #                                  Group(pre=/post=f), f() scales / shifts property p
+#       and, on a group of equations, optionally
+#         'start': int | str       Group(start_idx=...)   (str: constant / property name)
+#         'stop': None | int | str Group(stop_idx=...)
+#    arrays may carry 'iconsts': {name: int} (integer constants) and
+#    'ifirst': {prop: int} (integer properties whose FIRST value is the int)
+#    'gen': {'tag','ncls','libm','ks','names','types'}: how 'mod' was generated
+#    (used by the session mutations), 'mut': the mutation that made a member
 #    'kernel': 'CubicSpline', 'dim': 2, 't': .., 'dt': .., 'data_seed': int,
 #    'compile': bool}
 
@@ -128,12 +150,20 @@ WRITE_D = ['q0', 'q1', 'q2', 'au', 'av', 'aw']
 
 HELPER_SRC = '''
 def c02_helper(x=0.0, y=0.0):
-    return x*y + 2.0*x - 0.5*y
+    return x*y + %s*x - %s*y
 
 
 def c02_helper2(x=0.0):
-    return c02_helper(x, 1.5) * 0.25
+    return c02_helper(x, 1.5) * %s
 '''
+
+
+def helper_src(rng):
+    """the helper functions of a module: the same NAMES in every module, the
+    bodies drawn per module"""
+    return HELPER_SRC % (rng.choice(['2.0', '2.0', '0.5', '3.0']),
+                         rng.choice(['0.5', '0.5', '1.25']),
+                         rng.choice(['0.25', '0.25', '2.0']))
 
 
 class ExprGen:
@@ -299,10 +329,33 @@ def order_args(names, loop):
     return idx + rest
 
 
+ATTR_POOL = {'float': [0.5, 1.5, 2.0, 0.1, 0.25, 3.0, 1.0, 0.0, -0.75],
+             'int': [2, 3, 1, 0, -1, 7],
+             'bool': [True, False]}
+ATTR_NAMES = ('ca', 'cb')
+
+
+def gen_attr_types(rng, bias=None):
+    """Python types of the instance attributes of one class; uniform over the
+    instances of the class within one program (see `mixed` in inst_kw)"""
+    pool = {'narrow': ['int', 'int', 'bool', 'float'],
+            None: ['float', 'float', 'int', 'bool']}[bias]
+    return {a: rng.choice(pool) for a in ATTR_NAMES}
+
+
+def inst_kw(rng, types, mixed=False):
+    """constructor arguments of ONE instance: every instance draws its own values
+    (0, 0.0 and False included); `mixed`: its own types too"""
+    kw = {}
+    for a in ATTR_NAMES:
+        ty = rng.choice(['float', 'int', 'bool']) if mixed else types[a]
+        kw[a] = rng.choice(ATTR_POOL[ty])
+    return kw
+
+
 def gen_class(rng, name, libm, ksyms):
-    """source of one equation class; returns (source, kwargs)"""
-    attrs = ['ca', 'cb']
-    kw = {'ca': rng.choice([0.5, 1.5, 2.0, 0.1]), 'cb': rng.choice([0.25, 3.0, 1.0])}
+    """source of one equation class (instance attributes ca, cb)"""
+    attrs = list(ATTR_NAMES)
     g = ExprGen(rng, libm, ksyms, attrs)
     meths = ['loop'] + [m for m in ('initialize', 'post_loop', 'initialize_pair')
                         if rng.random() < (0.6 if m != 'initialize_pair' else 0.2)]
@@ -326,6 +379,11 @@ def gen_class(rng, name, libm, ksyms):
             ctx['args'].add('d_q2')
         else:
             body = g.body(ctx, rng.randrange(1, 4 if loop else 3))
+        if loop:
+            # both attributes take part in what the class computes, whatever
+            # the random body drew
+            body.append('d_q1[d_idx] += self.ca*s_m[s_idx] + self.cb')
+            ctx['args'].update(['d_q1', 's_m'])
         helpers = helpers or ctx['helpers']
         args = order_args(ctx['args'], loop)
         src.append('    def %s(self, %s):' % (m, ', '.join(args)))
@@ -334,20 +392,22 @@ def gen_class(rng, name, libm, ksyms):
     if helpers:
         src += ['    def _get_helpers_(self):',
                 '        return [c02_helper, c02_helper2]', '']
-    return '\n'.join(src), kw
+    return '\n'.join(src)
 
 
-def gen_module(rng, ncls, libm, ksyms):
+def gen_module(rng, ncls, libm, ksyms, tag=None):
+    """module source + the class names; `tag` fixes the class NAMES (a second
+    module with the same tag re-defines the same names with other bodies)"""
     parts = ['from math import sin, exp, sqrt, pow',
              'from compyle.api import declare',
-             'from pysph.sph.equation import Equation', HELPER_SRC]
+             'from pysph.sph.equation import Equation', helper_src(rng)]
     classes = []
-    tag = '%06x' % rng.randrange(1 << 24)
+    if tag is None:
+        tag = '%06x' % rng.randrange(1 << 24)
     for k in range(ncls):
         nm = 'GenEq%s%s' % (tag, 'ABCDEFGH'[k])
-        s, kw = gen_class(rng, nm, libm, ksyms)
-        parts.append(s)
-        classes.append((nm, kw))
+        parts.append(gen_class(rng, nm, libm, ksyms))
+        classes.append(nm)
     return '\n\n'.join(parts) + '\n', classes
 
 
@@ -457,6 +517,14 @@ def needed_props(eqs):
 # ===========================================================================
 # building a case
 
+def array_sizes(a, dim):
+    """(number of particles, number of real particles) build_arrays makes for
+    the array spec `a`"""
+    side = max(2, int(round(a['n'] ** (1.0 / dim))))
+    tot = min(side ** dim, max(a['n'], 1))
+    return tot, tot - min(a.get('nghost', 0), tot)
+
+
 def make_positions(rng, n, dim, dx):
     side = max(2, int(round(n ** (1.0 / dim))))
     pts = []
@@ -507,12 +575,22 @@ def build_arrays(spec):
         for c in sorted(a.get('consts', {})):
             ln = a['consts'][c]
             pa.add_constant(c, [rng.uniform(0.5, 1.5) for _ in range(ln)])
+        for c in sorted(a.get('iconsts', {})):
+            pa.add_constant(c, int(a['iconsts'][c]))        # a LongArray
+        for p in sorted(a.get('ifirst', {})):
+            if p not in pa.properties:
+                pa.add_property(p, type='int')
+            arr = pa.get_carray(p).get_npy_array()
+            arr[:] = [rng.randrange(0, 5) for _ in range(len(arr))]
         ng = min(a.get('nghost', 0), n)
         if ng:
             tag = pa.get_carray('tag').get_npy_array()
             for i in rng.sample(range(n), ng):
                 tag[i] = 2
             pa.align_particles()
+        for p in sorted(a.get('ifirst', {})):
+            # "its first value": of the array as the evaluator finds it
+            pa.get_carray(p).get_npy_array()[0] = int(a['ifirst'][p])
         pas.append(pa)
     return pas
 
@@ -545,6 +623,10 @@ def group_kwargs(g, pas):
     for k in ('pre', 'post'):
         if g.get(k):
             kw[k] = make_callback(g[k], pas)
+    if 'start' in g:
+        kw['start_idx'] = g['start']
+    if 'stop' in g:
+        kw['stop_idx'] = g['stop']
     return kw
 
 
@@ -644,6 +726,27 @@ def py_execute(pas, groups, kernel, neighbours, t, dt):
                 g, lambda: py_execute_leaf(pas, g, kernel, neighbours, t, dt)))
 
 
+def first_value(pa, name):
+    """'look for a property/constant and use its first value' (Group docstring)"""
+    return int(pa.get_carray(name).get_npy_array()[0])
+
+
+def documented_range(g, dpa):
+    """Group docstring: start_idx "Starts from the given number if an integer is
+    passed. If a string is look for a property/constant and use its first value";
+    stop_idx "Defaults to all particles [the real ones if `real`]. Ends at the
+    given number ... this works like a range stop parameter" """
+    start = g.start_idx
+    if isinstance(start, str):
+        start = first_value(dpa, start)
+    stop = g.stop_idx
+    if stop is None:
+        stop = dpa.get_number_of_particles(g.real)
+    elif isinstance(stop, str):
+        stop = first_value(dpa, stop)
+    return range(int(start), int(stop))
+
+
 def py_execute_leaf(pas, g, kernel, neighbours, t, dt):
     by = {pa.name: pa for pa in pas}
     V = {pa.name: views(pa) for pa in pas}
@@ -657,7 +760,9 @@ def py_execute_leaf(pas, g, kernel, neighbours, t, dt):
             deqs = [e for e in eqs if e.dest == dname]
             dpa = by[dname]
             dv = V[dname]
-            nd = dpa.get_number_of_particles(g.real)
+            # the destination indices the group asks for, read when the
+            # destination is taken up
+            drange = documented_range(g, dpa)
 
             def base(a, di=None, si=None, sv=None, extra=None):
                 if a == 'd_idx':
@@ -680,12 +785,12 @@ def py_execute_leaf(pas, g, kernel, neighbours, t, dt):
             for e in deqs:
                 if hasattr(e, 'py_initialize'):
                     e.py_initialize(dpa, t, dt)
-            for di in range(nd):
+            for di in drange:
                 for e in deqs:
                     if hasattr(e, 'initialize'):
                         call_method(e, 'initialize',
                                     lambda a: base(a, di))
-            for di in range(nd):
+            for di in drange:
                 for e in deqs:
                     if e.no_source and hasattr(e, 'loop'):
                         call_method(e, 'loop', lambda a: base(a, di))
@@ -701,7 +806,7 @@ def py_execute_leaf(pas, g, kernel, neighbours, t, dt):
                         if s == sname:
                             seqs.append(e)
                 sv = V[sname]
-                for di in range(nd):
+                for di in drange:
                     for e in seqs:
                         if hasattr(e, 'initialize_pair'):
                             call_method(e, 'initialize_pair',
@@ -712,7 +817,7 @@ def py_execute_leaf(pas, g, kernel, neighbours, t, dt):
                     continue
                 wanted = [a for e in seqs if hasattr(e, 'loop')
                           for a in method_args(e, 'loop') if a in ALL_SYMS]
-                for di in range(nd):
+                for di in drange:
                     nb = neighbours(sname, dname, di)
                     ex0 = {'NBRS': nb, 'N_NBRS': len(nb)}
                     for e in seqs:
@@ -742,7 +847,7 @@ def py_execute_leaf(pas, g, kernel, neighbours, t, dt):
                         for e in seqs:
                             if hasattr(e, 'loop'):
                                 call_method(e, 'loop', avail)
-            for di in range(nd):
+            for di in drange:
                 for e in deqs:
                     if hasattr(e, 'post_loop'):
                         call_method(e, 'post_loop', lambda a: base(a, di))
@@ -847,7 +952,8 @@ def parse_generated(code):
             continue
         m = re.match(r'dst = self\.(\w+)$', s)
         if m:
-            cur_d = {'dest': m.group(1), 'assigns': {}, 'calls': [], 'srcs': []}
+            cur_d = {'dest': m.group(1), 'assigns': {}, 'calls': [], 'srcs': [],
+                     'lims': [], 'loops': []}
             cur_g.append(cur_d)
             cur_s = None
             continue
@@ -856,6 +962,15 @@ def parse_generated(code):
             cur_s = {'source': m.group(1), 'assigns': {}, 'vecsetup': {},
                      'pre': [], 'calls': []}
             cur_d['srcs'].append(cur_s)
+            continue
+        m = re.match(r'(D_START_IDX|NP_DEST)\s*=\s*(.+)$', s)
+        if m and cur_d is not None:
+            # (name, right-hand side, number of destination loops seen before)
+            cur_d['lims'].append((m.group(1), m.group(2).strip(), len(cur_d['loops'])))
+            continue
+        m = re.match(r'for d_idx in (.+):$', s)
+        if m and cur_d is not None:
+            cur_d['loops'].append(m.group(1).strip())
             continue
         m = re.match(r'(\w+) = (dst|src)\.(\w+)\.data$', s)
         if m:
@@ -886,6 +1001,91 @@ def parse_generated(code):
                 t = t.replace(a, b)
             cur_s['pre'].append(t)
     return out
+
+
+def parse_wrappers(code, names):
+    """the `cdef class <name>:` blocks of the equation classes:
+    {name: {'attrs': {attr: ctype}, 'methods': {meth: [argument names]}, 'count': n}}"""
+    out = {}
+    lines = code.split('\n')
+    i = 0
+    while i < len(lines):
+        m = re.match(r'cdef class (\w+)\s*:', lines[i])
+        i += 1
+        if not m or m.group(1) not in names:
+            continue
+        W = out.setdefault(m.group(1), {'attrs': {}, 'methods': {}, 'count': 0})
+        W['count'] += 1
+        while i < len(lines) and (not lines[i].strip() or lines[i][0] in ' \t'):
+            ln = lines[i]
+            i += 1
+            a = re.match(r'    cdef public (.+?)\s*(\w+)$', ln)
+            if a:
+                W['attrs'][a.group(2)] = a.group(1).strip()
+                continue
+            f = re.match(r'    c?p?def (?:inline )?(?:[\w \*]+? )?(\w+)\((.*)\)[^()]*:$', ln)
+            if f:
+                args = [x.strip().split(' ')[-1].lstrip('*') for x in f.group(2).split(',')
+                        if x.strip()]
+                if args and args[0] == 'self':
+                    args = args[1:]
+                W['methods'][f.group(1)] = args
+    return out
+
+
+def py_tag(v):
+    """the distinctions compyle's detect_type makes for an attribute value"""
+    if isinstance(v, bool):
+        return 'bool'
+    if isinstance(v, int):
+        return 'int'
+    if isinstance(v, float):
+        return 'float'
+    if isinstance(v, str):
+        return 'str'
+    if isinstance(v, (list, tuple)):
+        if all(isinstance(x, (int, float)) for x in v):
+            return 'numlist'
+        return 'list' if isinstance(v, list) else 'tuple'
+    return 'object'
+
+
+def c_holds(ctype, tag):
+    """a C attribute of that type keeps a Python value of that type unchanged"""
+    return {'double': tag in ('bool', 'int', 'float'),
+            'long': tag in ('bool', 'int'),
+            'int': tag in ('bool', 'int'),      # the values used here fit
+            'float': tag in ('bool', 'int')}.get(ctype, False)
+
+
+def limit_canon(text):
+    """syntactic form of an emitted loop limit, in the model's vocabulary"""
+    t = text.replace(' ', '')
+    if re.fullmatch(r'-?\d+', t):
+        return 'lit:%d' % int(t)
+    m = re.fullmatch(r'self\.(\w+)\.size\(real=(True|False)\)', t)
+    if m:
+        return 'size:%s.%d' % (m.group(1), m.group(2) == 'True')
+    m = re.fullmatch(r'self\.(\w+)\.(\w+)\[0\]', t)
+    if m:
+        return 'first:%s.%s' % (m.group(1), m.group(2))
+    return '?' + t
+
+
+def limit_value(canon, by):
+    """what the emitted limit evaluates to on the real arrays (None: unknown form)"""
+    kind, _, rest = canon.partition(':')
+    try:
+        if kind == 'lit':
+            return int(rest)
+        arr, _, x = rest.partition('.')
+        if kind == 'size':
+            return by[arr].get_number_of_particles(x == '1')
+        if kind == 'first':
+            return first_value(by[arr], x)
+    except Exception:   # noqa
+        return None
+    return None
 
 
 def stmt_target(t):
@@ -968,6 +1168,10 @@ def analyse_program(spec, work, want_code=False):
     from pysph.sph.acceleration_eval import AccelerationEval
     from pysph.sph.acceleration_eval_cython_helper import \
         AccelerationEvalCythonHelper
+    # unnamed groups are numbered by a process-wide counter that ends up in the
+    # generated text (profiling labels): every program starts it afresh, so the
+    # text of a program does not depend on how many groups the process made
+    EQ.group_counter = itertools.count()
     pas = build_arrays(spec)
     top_groups = build_equations(spec, modules, pas)
     kernel = get_kernel(spec)
@@ -1192,6 +1396,108 @@ def analyse_program(spec, work, want_code=False):
         e = all_eqs[idx] if idx < len(all_eqs) else None
         if e is None or e.__class__.__name__ != cls or e.var_name != var:
             res['fail'].append(('C02:equation-init', 'self.%s = %s(**equations[i].__dict__) with equations[i] that equation' % (var, cls), 'index %d' % idx))
+    if sorted(P['init']) != sorted(getattr(e, 'var_name', '?') for e in all_eqs):
+        res['fail'].append(('C02:equation-init', 'one self.<var> = <Class>(**equations[i].__dict__) per equation: %s'
+                            % sorted(getattr(e, 'var_name', '?') for e in all_eqs), repr(sorted(P['init']))))
+    # ---- destination loop limits (start_idx / stop_idx / real) --------------
+    # model input: the options of each group of equations and its destinations
+    res['ng'] = len(groups)
+    res['impl_limits'] = []
+    for gi, g in enumerate(groups):
+        dests = []
+        for e in g.equations:
+            if e.dest not in dests:
+                dests.append(e.dest)
+
+        def opt(v):
+            return 'r:%s' % v if isinstance(v, str) else 'n:%d' % v
+        res['lines'].append('limits real=%d start=%s stop=%s dests=%s' % (
+            bool(g.real), opt(g.start_idx),
+            'all' if g.stop_idx is None else opt(g.stop_idx), ','.join(dests)))
+        blocks = P['groups'][gi] if gi < len(P['groups']) else []
+        canon = []
+        for db in blocks:
+            lim = {}
+            for nm, text, _ in db['lims']:
+                lim.setdefault(nm, []).append(limit_canon(text))
+            canon.append('%s:%s..%s' % (db['dest'], '+'.join(lim.get('D_START_IDX', ['none'])),
+                                        '+'.join(lim.get('NP_DEST', ['none']))))
+            # property oracle (independent of the model): whatever text is
+            # emitted, evaluated on the real arrays it must make every loop of
+            # this destination run over the documented range(start, stop)
+            want = documented_range(g, by[db['dest']]) if db['dest'] in by else None
+            what = ('group %d (start_idx=%r, stop_idx=%r, real=%s), destination %s: every method runs for '
+                    'd_idx in %r' % (gi, g.start_idx, g.stop_idx, g.real, db['dest'], want))
+            obs = None
+            if sorted(nm for nm, _, _ in db['lims']) != ['D_START_IDX', 'NP_DEST'] or \
+                    any(k for _, _, k in db['lims']):
+                obs = 'limits assigned %s' % ['%s = %s (after %d loops)' % x for x in db['lims']]
+            else:
+                badl = [x for x in db['loops']
+                        if not re.fullmatch(r'range\(D_START_IDX, NP_DEST(, 1)?\)', x)]
+                a = limit_value(lim['D_START_IDX'][0], by)
+                b = limit_value(lim['NP_DEST'][0], by)
+                if badl:
+                    obs = 'loop over %s' % badl[0]
+                elif a is None or b is None:
+                    obs = 'D_START_IDX = %s ; NP_DEST = %s (not a form the documentation describes)' % (
+                        db['lims'][0][1], db['lims'][1][1])
+                elif want is None or list(range(a, b)) != list(want):
+                    obs = 'D_START_IDX = %s ; NP_DEST = %s, i.e. range(%d, %d) on these arrays' % (
+                        [t for n_, t, _ in db['lims'] if n_ == 'D_START_IDX'][0],
+                        [t for n_, t, _ in db['lims'] if n_ == 'NP_DEST'][0], a, b)
+            if obs is not None:
+                res['fail'].append(('C02:destination-range', what, obs))
+        res['impl_limits'].append(' '.join(canon))
+    # ---- attribute declarations of the wrapper classes -----------------------
+    by_cls = {}
+    for e in all_eqs:
+        by_cls.setdefault(e.__class__.__name__, []).append(e)
+    res['lines'].append('wrappers ' + ' '.join(
+        'I cls=%s attrs=%s' % (e.__class__.__name__, ';'.join(
+            '%s:%s' % (a, py_tag(v)) for a, v in sorted(e.__dict__.items())) or '_')
+        for e in all_eqs))
+    W = parse_wrappers(code, set(by_cls))
+    res['impl_wrappers'] = '|'.join(
+        '%s{%s}' % (c, ';'.join('%s:%s' % (a, t.replace(' ', '~'))
+                                for a, t in sorted(W[c]['attrs'].items())))
+        for c in sorted(W)) or '_'
+    res['flagged_instances_differ'] = False
+    for cls, insts in sorted(by_cls.items()):
+        w = W.get(cls)
+        if w is None or w['count'] != 1:
+            res['fail'].append(('C02:equation-wrapper', 'one cdef class %s' % cls,
+                                '%d' % (0 if w is None else w['count'])))
+            continue
+        for e in insts:
+            k = next(i for i, x in enumerate(all_eqs) if x is e)
+            for a, v in sorted(e.__dict__.items()):
+                tag = py_tag(v)
+                ty = w['attrs'].get(a)
+                if ty is None:
+                    res['fail'].append(('C02:attribute-declaration', 'class %s declares the attribute %s of equations[%d]' % (cls, a, k), 'not declared'))
+                elif (tag in ('bool', 'int', 'float') and not c_holds(ty, tag)) or \
+                        (tag == 'str' and ty != 'str'):
+                    differ = len({py_tag(x.__dict__.get(a)) for x in insts}) > 1
+                    res['flagged_instances_differ'] = res['flagged_instances_differ'] or differ
+                    res['fail'].append((
+                        'C02:instances-differ-in-attribute-type' if differ else 'C02:attribute-declaration',
+                        'class %s: attribute %s declared with a C type that holds %r, the value it has in '
+                        'equations[%d] (%s; the object is re-created as %s(**equations[%d].__dict__))'
+                        % (cls, a, v, k, e.var_name, cls, k),
+                        'cdef public %s %s%s' % (ty, a, ' -- the instances of %s carry %s' % (
+                            cls, [x.__dict__.get(a) for x in insts]) if differ else '')))
+            for m in ARG_METHODS:
+                want = method_args(e, m)
+                if want is None:
+                    continue
+                got = w['methods'].get(m)
+                if got != want:
+                    res['fail'].append(('C02:wrapper-method', 'class %s has the method %s(%s) of the Python class' % (cls, m, ', '.join(want)),
+                                        'none' if got is None else '%s(%s)' % (m, ', '.join(got))))
+    # one finding is reported once per class of input
+    seen_f = set()
+    res['fail'] = [f for f in res['fail'] if not (f in seen_f or seen_f.add(f))]
     res['objs'] = (pas, top_groups, kernel, ae, helper, code)
     return res
 
@@ -1232,16 +1538,21 @@ def run_program(arg):
     out = {'spec': spec, 'ok': True, 'fail': [], 'lines': [], 'err': None,
            'diff': None, 'exact': None, 'time': 0.0}
     try:
-        A = analyse_program(spec, work)
+        A = analyse_program(spec, work, want_code=(mode == 'codetext'))
         out['lines'] = A['lines']
+        out['ng'] = A['ng']
         out['impl_canon'] = A['impl_canon']
         out['impl_decl'] = A['impl_decl']
         out['impl_scratch'] = A['impl_scratch']
         out['impl_sites'] = A['impl_sites']
+        out['impl_limits'] = A['impl_limits']
+        out['impl_wrappers'] = A['impl_wrappers']
         out['fail'] = A['fail']
+        if mode == 'codetext':
+            out['code'] = A['code']
         out['nsyms'] = sorted({t for g in A['parse']['groups'] for db in g
                                for sb in db['srcs'] for t in pre_order(sb['pre'])})
-        if not spec.get('compile') or mode == 'codeonly':
+        if not spec.get('compile') or mode in ('codeonly', 'codetext'):
             out['time'] = time.time() - t0
             return out
         pas, groups, kernel, ae, helper, code = A['objs']
@@ -1324,6 +1635,10 @@ def run_program(arg):
                         exact_all = False
                     if not ok:
                         out['fail'].append((
+                            # (a value lost by an attribute declaration the
+                            # analysis of the source flagged is that finding)
+                            'C02:instances-differ-in-attribute-type'
+                            if A['flagged_instances_differ'] else
                             'C02:values:%s' % spec.get('label', 'program'),
                             'array %s property %s equal to the Python execution '
                             '(tolerance %g)' % (pc.name, n, tol), why))
@@ -1433,12 +1748,87 @@ def decorate_groups(rng, groups, names, t, mode=None):
     return tops, mode
 
 
-def gen_program(rng, compile_=True, big=False, groups_mode=None):
+GROUP_MODES = ['plain', 'plain', 'callables', 'unique-names', 'shared-names', 'shared-names']
+LIMIT_CONSTS = ('nlo', 'nhi')       # integer constants a limit may name
+LIMIT_PROPS = ('plo', 'phi')        # integer properties a limit may name
+
+
+def leaf_specs(groups):
+    out = []
+    for g in groups:
+        out += g['subs'] if 'subs' in g else [g]
+    return out
+
+
+def gen_limit_values(rng, arrays, dim):
+    """per array: the first values of the constants / properties a limit may
+    name -- boundary values of THAT array (they differ between the arrays)"""
+    for a in arrays:
+        tot, real = array_sizes(a, dim)
+        lo = [0, 0, 1, real // 3]
+        hi = [0, 0, real, max(real - 1, 0), tot, real // 2, 1]
+        a['iconsts'] = {'nlo': rng.choice(lo), 'nhi': rng.choice(hi)}
+        a['ifirst'] = {'plo': rng.choice(lo), 'phi': rng.choice(hi)}
+
+
+def gen_limits(rng, g, arrays, dim, p=0.45, force=False):
+    """Group(start_idx=, stop_idx=) of one group of equations: None, integers
+    around the boundaries (0, 1, n_real - 1, n_real, n, start == stop,
+    stop < start) or the name of a constant / property; always within the
+    smallest destination"""
+    g.pop('start', None)
+    g.pop('stop', None)
+    if not force and rng.random() >= p:
+        return
+    sizes = {a['name']: array_sizes(a, dim) for a in arrays}
+    dests = {e['dest'] for e in g['eqs']}
+    tot = min(sizes[d][0] for d in dests)
+    real = min(sizes[d][1] for d in dests)
+    start = rng.choice([0, 0, 0, 1, real // 2, real, tot, 'nlo', 'plo'])
+    stops = [None, None, 0, 0, 1, real, max(real - 1, 0), tot, real // 2, 'nhi', 'phi']
+    if isinstance(start, int):
+        stops += [start, max(start - 1, 0), min(start + 1, tot)]
+    stop = rng.choice(stops)
+    if force and start == 0 and stop is None:
+        stop = rng.choice([0, real // 2, 'nhi'])
+    if start != 0 or rng.random() < 0.3:
+        g['start'] = start
+    if stop is not None or rng.random() < 0.2:
+        g['stop'] = stop
+
+
+def gen_groups(rng, gen, names, arrays, dim, t, groups_mode=None, mixed=False):
+    """groups of instances of the generated classes: wiring, attribute values,
+    group-level features and loop limits"""
+    groups_mode = groups_mode or rng.choice(GROUP_MODES)
+    narr = len(names)
+    groups = []
+    ngroups = rng.choice([1, 1, 2]) if groups_mode == 'plain' else rng.choice([2, 3, 3, 4])
+    for _ in range(ngroups):
+        eqs = []
+        for _ in range(rng.choice([1, 2, 3, 3] if groups_mode == 'plain' else [1, 1, 2])):
+            cn = rng.choice(gen['names'])
+            dest = rng.choice(names)
+            srcs = rng.sample(names, rng.randrange(1, narr + 1))
+            eqs.append({'cls': 'gen:' + cn, 'dest': dest, 'sources': srcs,
+                        'kw': inst_kw(rng, gen['types'][cn], mixed)})
+        groups.append({'real': rng.random() < 0.7, 'eqs': eqs})
+    groups, groups_mode = decorate_groups(rng, groups, names, t, groups_mode)
+    for g in leaf_specs(groups):
+        gen_limits(rng, g, arrays, dim)
+    return groups, groups_mode
+
+
+def gen_program(rng, compile_=True, big=False, groups_mode=None, small=False,
+                mixed=False, bias=None):
     """a program of generated equation classes in the documented subset"""
-    libm = rng.random() < 0.35
-    ks = rng.random() < 0.6
-    ncls = rng.choice([2, 3, 3, 4])
-    src, classes = gen_module(rng, ncls, libm, ks)
+    libm = rng.random() < (0.2 if small else 0.35)
+    ks = rng.random() < (0.4 if small else 0.6)
+    ncls = rng.choice([1, 2, 2] if small else [2, 3, 3, 4])
+    tag = '%06x' % rng.randrange(1 << 24)
+    src, cnames = gen_module(rng, ncls, libm, ks, tag)
+    gen = {'tag': tag, 'ncls': ncls, 'libm': libm, 'ks': ks, 'names': cnames,
+           'types': {c: gen_attr_types(rng, bias) for c in cnames}}
     dim = rng.choice([1, 2, 2, 3])
     narr = rng.choice([1, 2, 2, 3 if big else 2])
     names = ['fluid', 'solid', 'wall'][:narr]
@@ -1446,28 +1836,94 @@ def gen_program(rng, compile_=True, big=False, groups_mode=None):
     arrays = [{'name': nm, 'n': n + rng.randrange(0, 8), 'props': full_props(),
                'consts': {'c0': 1, 'cv': 3},
                'nghost': rng.choice([0, 0, 2, 4])} for nm in names]
-    groups_mode = groups_mode or rng.choice(['plain', 'plain', 'callables', 'unique-names',
-                                             'shared-names', 'shared-names'])
+    gen_limit_values(rng, arrays, dim)
+    if small and groups_mode is None:
+        groups_mode = rng.choice(['plain', 'plain', 'callables', 'shared-names'])
     t = rng.choice([0.0, 0.3, 1.5])
-    groups = []
-    ngroups = rng.choice([1, 1, 2]) if groups_mode == 'plain' else rng.choice([2, 3, 3, 4])
-    for _ in range(ngroups):
-        eqs = []
-        for _ in range(rng.choice([1, 2, 3, 3] if groups_mode == 'plain' else [1, 1, 2])):
-            cn, kw = rng.choice(classes)
-            dest = rng.choice(names)
-            srcs = rng.sample(names, rng.randrange(1, narr + 1))
-            eqs.append({'cls': 'gen:' + cn, 'dest': dest, 'sources': srcs,
-                        'kw': kw})
-        groups.append({'real': rng.random() < 0.7, 'eqs': eqs})
-    groups, groups_mode = decorate_groups(rng, groups, names, t, groups_mode)
-    return {'label': 'generated' + ('-libm' if libm else '-arith') +
-            ('-kernel' if ks else ''), 'groups_mode': groups_mode,
+    groups, groups_mode = gen_groups(rng, gen, names, arrays, dim, t, groups_mode, mixed)
+    return {'label': 'instances-differ-in-attribute-type' if mixed else
+            'generated' + ('-libm' if libm else '-arith') + ('-kernel' if ks else ''),
+            'groups_mode': groups_mode, 'gen': gen,
             'mod': src, 'arrays': arrays, 'groups': groups,
             'kernel': rng.choice(KERNELS[dim]), 'dim': dim,
             't': t, 'dt': rng.choice([0.01, 1e-4]),
             'data_seed': rng.randrange(1 << 30), 'compile': compile_,
             'tol': 1e-12 if (libm or ks) else 0.0}
+
+
+# --- sessions: several evaluators, one after the other, in ONE process ----------
+# Each member is a complete program.  A member is derived from its predecessor
+# by a mutation that keeps every NAME a generator could key a memo by (class
+# names, array names, property names, group names, kernel class) and changes
+# what the generated code must depend on.
+
+MUTATIONS = ('retype-attrs', 'redefine-classes', 'retype-arrays', 'rewire',
+             'relimit', 'repeat')
+
+
+def mutate(rng, spec, kind):
+    s = copy.deepcopy(spec)
+    gen = s['gen']
+    names = [a['name'] for a in s['arrays']]
+    if kind == 'retype-attrs':
+        # the same classes, every attribute with ANOTHER Python type (the
+        # direction int/bool -> float is the one in which a declaration made
+        # for the predecessor loses information) and other values
+        for c in gen['names']:
+            old = gen['types'][c]
+            gen['types'][c] = {
+                a: ('float' if old[a] != 'float' and rng.random() < 0.7 else
+                    rng.choice([x for x in ('float', 'int', 'bool') if x != old[a]]))
+                for a in old}
+        for g in leaf_specs(s['groups']):
+            for e in g['eqs']:
+                e['kw'] = inst_kw(rng, gen['types'][e['cls'].split(':')[1]])
+    elif kind == 'redefine-classes':
+        # the same class NAMES with other method bodies (an interactive
+        # session, two scripts that both define `class Source`)
+        s['mod'], _ = gen_module(random.Random(rng.randrange(1 << 30)), gen['ncls'],
+                                 gen['libm'], gen['ks'], gen['tag'])
+    elif kind == 'retype-arrays':
+        # the same property names with another carray type
+        old = s['arrays'][0]['props']['ic']['type']
+        ty = rng.choice([x for x in ('int', 'long', 'double') if x != old])
+        for a in s['arrays']:
+            a['props']['ic'] = {'type': ty}
+    elif kind == 'rewire':
+        # the same classes in other groups: destinations, sources, real,
+        # callables, names, limits; another kernel of the same dimension
+        s['groups'], s['groups_mode'] = gen_groups(
+            rng, gen, names, s['arrays'], s['dim'], s['t'],
+            rng.choice(['plain', 'callables', 'shared-names']))
+        s['kernel'] = rng.choice(KERNELS[s['dim']])
+    elif kind == 'relimit':
+        # the same groups with other start_idx / stop_idx (None <-> 0 <-> n <-> name)
+        gen_limit_values(rng, s['arrays'], s['dim'])
+        leaves = leaf_specs(s['groups'])
+        forced = rng.randrange(len(leaves))
+        for k, g in enumerate(leaves):
+            gen_limits(rng, g, s['arrays'], s['dim'], p=0.6, force=(k == forced))
+    elif kind == 'repeat':
+        # the very same program on new particle data
+        pass
+    else:
+        raise AssertionError(kind)
+    s['data_seed'] = rng.randrange(1 << 30)
+    s['mut'] = kind
+    return s
+
+
+def gen_session(rng, compile_, length, must=()):
+    """[program, mutation of it, mutation of that, ...]; `must`: mutation kinds
+    that have to occur (the first members), the rest is drawn"""
+    base = gen_program(rng, compile_=compile_, big=not compile_, small=compile_,
+                       bias='narrow')
+    base['mut'] = 'first'
+    kinds = list(must) + [rng.choice(MUTATIONS) for _ in range(length)]
+    members = [base]
+    for kind in kinds[:max(length - 1, 0)]:
+        members.append(mutate(rng, members[-1], kind))
+    return members
 
 
 _STRIDE_RE = re.compile(r'[ds]_idx\s*\*|\*\s*[ds]_idx|declare\(.matrix')
@@ -1514,6 +1970,18 @@ def shipped_program(rng, entries, dim=None, compile_=True):
             'kernel': rng.choice(KERNELS[dim][:4]), 'dim': dim, 't': 0.2,
             'dt': 0.01, 'data_seed': rng.randrange(1 << 30),
             'compile': compile_, 'tol': 1e-12}
+
+
+def distinct_names(entries):
+    """the generated module has one class per class NAME: the classes of one
+    evaluator have distinct names (several shipped modules define a
+    `SummationDensity`; see ASSUMPTIONS)"""
+    out, seen = [], set()
+    for e in entries:
+        if e[1] not in seen:
+            seen.add(e[1])
+            out.append(e)
+    return out
 
 
 def discover_shipped():
@@ -1849,37 +2317,61 @@ def collect(R, results, tag):
     pos = 0
     for r in results:
         spec = r['spec']
+        case = r.get('case') or {'kind': 'program', 'spec': spec}
         if not r['ok']:
             R.count('%s:error' % tag)
             R.note('program %s failed to build/run: %s' % (spec.get('label'), (r['err'] or '')[:400]))
             R.d.setdefault('errors', []).append({'label': spec.get('label'), 'err': r['err']})
             if not r['lines']:
+                for key, demand, obs in r['fail']:
+                    R.prop_fail(key, case, demand, obs)
                 continue
             # the generated source was analysed before the build/run failed:
             # what the analysis found still counts
         mine = out[pos:pos + len(r['lines'])]
         pos += len(r['lines'])
-        ng = len(r['lines']) - 2
+        ng = r['ng']
+        if len(mine) != 2 * ng + 3:
+            raise SystemExit('driver answered %d lines for a program of %d groups' % (len(mine), ng))
         if mine[ng + 1] != r['impl_sites']:
-            R.disagree({'label': spec.get('label'), 'spec': spec}, mine[ng + 1],
+            R.disagree({'label': spec.get('label'), 'case': case}, mine[ng + 1],
                        r['impl_sites'], 'call sites of condition/pre/post '
                        '(kind@enclosing-group>group-referred-to)')
         for gi in range(ng):
             parts = mine[gi].split(' | ')
             model_blocks = ' | '.join(p for p in parts if p.startswith('D '))
             if model_blocks != r['impl_canon'][gi]:
-                R.disagree({'label': spec.get('label'), 'spec': spec, 'group': gi},
+                R.disagree({'label': spec.get('label'), 'case': case, 'group': gi},
                            model_blocks, r['impl_canon'][gi], 'wiring of group %d' % gi)
+            # the right-hand sides of D_START_IDX / NP_DEST per destination
+            if mine[ng + 2 + gi] != r['impl_limits'][gi]:
+                R.disagree({'label': spec.get('label'), 'case': case, 'group': gi},
+                           mine[ng + 2 + gi], r['impl_limits'][gi],
+                           'loop limits of group %d (%s)' % (gi, r['lines'][ng + 2 + gi]))
+        # the attribute declarations of the wrapper classes: the existing
+        # generator types a class from the last instance of its name, the
+        # repaired one from the widened representative; they agree unless the
+        # instances of a name differ in the type of an attribute
+        wm = dict(x.split('=', 1) for x in mine[2 * ng + 2].split(' ')) \
+            if mine[2 * ng + 2] != 'bad-op' else {}
+        if r['impl_wrappers'] not in (wm.get('last'), wm.get('merge')):
+            R.disagree({'label': spec.get('label'), 'case': case},
+                       mine[2 * ng + 2], r['impl_wrappers'],
+                       'attribute declarations of the equation wrapper classes')
+        elif wm.get('last') != wm.get('merge'):
+            R.count('%s:wrapper-policy:%s' % (tag, 'widened-representative'
+                                              if r['impl_wrappers'] == wm.get('merge') else 'last-instance'))
         parts = mine[ng].split(' | ')
         md = [p for p in parts if p.startswith('decl ')]
         ms = [p for p in parts if p.startswith('scratch ')]
         if md != [r['impl_decl']]:
-            R.disagree({'label': spec.get('label'), 'spec': spec}, md, r['impl_decl'], 'array declarations')
+            R.disagree({'label': spec.get('label'), 'case': case}, md, r['impl_decl'], 'array declarations')
         if ms != [r['impl_scratch']]:
-            R.disagree({'label': spec.get('label'), 'spec': spec}, ms, r['impl_scratch'], 'scratch variables')
+            R.disagree({'label': spec.get('label'), 'case': case}, ms, r['impl_scratch'], 'scratch variables')
         for key, demand, obs in r['fail']:
-            R.prop_fail(key, {'kind': 'program', 'spec': spec}, demand, obs)
+            R.prop_fail(key, case, demand, obs)
         lab = spec.get('label', '')
+        R.d.setdefault('times', []).append((round(r.get('time', 0.0), 1), tag, lab, spec.get('mut', '')))
         for n_ in r.get('notes', []):
             if n_ not in R.d['notes']:
                 R.note(n_)
@@ -1943,6 +2435,46 @@ def group_feature_classes(spec):
             out.append('group-names:shared:conditions-of-different-outcome')
         if sum(1 for _, g in members if any(g.get(k) for k in ('cond', 'pre', 'post'))) >= 2:
             out.append('group-names:shared:own-callables')
+    # loop limits
+    sizes = {a['name']: array_sizes(a, spec['dim']) for a in spec['arrays']}
+    for _, g in nodes:
+        if 'eqs' not in g:
+            continue
+        if 'start' not in g and 'stop' not in g:
+            out.append('limits:default')
+            continue
+        st, sp = g.get('start', 0), g.get('stop')
+        out.append('limits:start:%s' % ('name' if isinstance(st, str) else
+                                        '0' if st == 0 else 'positive'))
+        real = min(sizes[e['dest']][1] for e in g['eqs'])
+        tot = min(sizes[e['dest']][0] for e in g['eqs'])
+        out.append('limits:stop:%s' % (
+            'None' if sp is None else 'name' if isinstance(sp, str) else
+            '0' if sp == 0 else 'n_real' if sp == real else 'n_all' if sp == tot else
+            'start' if sp == st else 'below-start' if isinstance(st, int) and sp < st else 'inside'))
+        for k in ('start', 'stop'):
+            v = g.get(k)
+            if isinstance(v, str):
+                vals = {(a.get('iconsts', {}).get(v, a.get('ifirst', {}).get(v)))
+                        for a in spec['arrays'] if a['name'] in {e['dest'] for e in g['eqs']}}
+                if 0 in vals:
+                    out.append('limits:%s:name-of-a-zero' % k)
+    # instance attributes
+    tags = {}
+    for _, g in nodes:
+        for e in g.get('eqs', []):
+            for a, v in e['kw'].items():
+                tags.setdefault((e['cls'], a), []).append(v)
+    for (c, a), vs in tags.items():
+        ts = {py_tag(v) for v in vs}
+        for t_ in ts:
+            out.append('attribute:%s' % t_)
+        if len(ts) > 1:
+            out.append('attribute:instances-differ-in-type')
+        if len(vs) > 1 and len(set(map(repr, vs))) > 1:
+            out.append('attribute:instances-differ-in-value')
+        if any(v == 0 for v in vs):
+            out.append('attribute:zero-or-False')
     return sorted(set(out))
 
 
@@ -2013,6 +2545,169 @@ def run_batch(specs, work, mode, procs):
         return run_isolated(specs, work, mode, procs)
 
 
+class Jobs:
+    """programs run one after the other in ONE fresh process per job (a job of
+    one program: that program alone in a fresh process).  Jobs are started with
+    pump() and reaped with wait(); a job that dies (crash of generated code,
+    time-out) is reported with the members completed before"""
+
+    def __init__(self, work, procs):
+        self.work, self.procs = work, max(1, procs)
+        self.pending, self.running, self.done = [], {}, {}
+        self.uid = '%d_%d' % (os.getpid(), int(time.time() * 1000) % 100000)
+        self.n = 0
+
+    def submit(self, specs, mode):
+        jid = self.n
+        self.n += 1
+        self.pending.append((jid, specs, mode))
+        return jid
+
+    def pump(self):
+        import subprocess
+        while self.pending and len(self.running) < self.procs:
+            jid, specs, mode = self.pending.pop(0)
+            tf = os.path.join(self.work, 'job_%s_%d.json' % (self.uid, jid))
+            of = os.path.join(self.work, 'jobout_%s_%d.jsonl' % (self.uid, jid))
+            with open(tf, 'w') as fh:
+                json.dump({'specs': specs, 'work': self.work, 'mode': mode}, fh)
+            lf = open(of + '.log', 'wb')
+            pr = subprocess.Popen([sys.executable, os.path.abspath(__file__),
+                                   '--worker-task', tf, '--worker-out', of],
+                                  stdout=lf, stderr=subprocess.STDOUT,
+                                  stdin=subprocess.DEVNULL)
+            lf.close()
+            self.running[jid] = (pr, of, time.time(), specs)
+        for jid in list(self.running):
+            pr, of, t0, specs = self.running[jid]
+            rc = pr.poll()
+            if rc is None:
+                if time.time() - t0 > 600 + 300 * len(specs):
+                    pr.kill()
+                    pr.wait()
+                    rc = 'timeout'
+                else:
+                    continue
+            del self.running[jid]
+            outs = []
+            if os.path.exists(of):
+                for ln in open(of):
+                    try:
+                        outs.append(json.loads(ln))
+                    except ValueError:
+                        break
+            died = None
+            if rc != 0 or len(outs) != len(specs):
+                log = open(of + '.log', 'rb').read().decode(errors='replace')
+                died = {'rc': rc, 'at': len(outs), 'log': log[-600:]}
+            self.done[jid] = {'outs': outs, 'died': died, 'specs': specs}
+
+    def wait(self):
+        while self.pending or self.running:
+            self.pump()
+            time.sleep(0.2)
+        return self.done
+
+
+def session_case(specs, k):
+    return {'kind': 'session', 'specs': specs[:k + 1],
+            'what': 'the programs are built and evaluated one after the other in one process; '
+                    'the last one fails'}
+
+
+def settle_sessions(R, sessions, results, work, procs, mode, tag):
+    """verdicts for sessions: every member is a program (model tie, oracles); a
+    member that fails is run again ALONE in a fresh process -- if it passes
+    there, the failure is one of the history (key C02:process-history:...), and
+    the failing input is the session up to that member"""
+    alone = Jobs(work, procs)
+    need = {}
+    for si, (specs, res) in enumerate(zip(sessions, results)):
+        died = res['died']
+        for k, o in enumerate(res['outs']):
+            if k > 0 and (o['fail'] or not o['ok']):
+                need[(si, k)] = alone.submit([specs[k]], mode)
+        if died is not None and died['at'] < len(specs) and died['at'] > 0:
+            need[(si, died['at'])] = alone.submit([specs[died['at']]], mode)
+    done = alone.wait() if need else {}
+    flat = []
+    for si, (specs, res) in enumerate(zip(sessions, results)):
+        outs = list(res['outs'])
+        died = res['died']
+        if died is not None and died['at'] < len(specs):
+            k = died['at']
+            o = run_program((specs[k], work, 'codeonly'))
+            o['fail'] = list(o['fail']) + [(
+                'C02:compute-crashes:%s' % specs[k].get('label', 'program'),
+                'the compiled program is built, AccelerationEval.compute(t, dt) returns and leaves '
+                'the values of the Python execution',
+                'the process died (exit code %s) while building / running member %d of the session: %s'
+                % (died['rc'], k, died['log']))]
+            o['crashed'] = True
+            outs.append(o)
+            R.count('%s:member-not-reached' % tag, len(specs) - len(outs))
+        for k, o in enumerate(outs):
+            R.count('%s:member:%s' % (tag, specs[k].get('mut', '?')))
+            a = done.get(need.get((si, k)))
+            if a is None:
+                if k > 0 and (o['fail'] or not o['ok']):
+                    o['case'] = session_case(specs, k)
+                flat.append(o)
+                continue
+            ao = a['outs'][0] if a['outs'] else None
+            passes_alone = ao is not None and ao['ok'] and not ao['fail'] and a['died'] is None
+            if passes_alone:
+                o['fail'] = [('C02:process-history:' + key.split(':', 1)[1], demand,
+                              '%s -- the same program ALONE in a fresh process meets the demand'
+                              % obs) for key, demand, obs in o['fail']]
+                if not o['ok']:
+                    o['fail'].append(('C02:process-history:build', 'the program builds and runs, as it does '
+                                      'alone in a fresh process', (o['err'] or '')[:600]))
+                    o['ok'] = True if o['lines'] else o['ok']
+                o['case'] = session_case(specs, k)
+                R.count('%s:member-fails-only-after-its-predecessors' % tag)
+            else:
+                R.count('%s:member-fails-alone-too' % tag)
+            flat.append(o)
+    collect(R, flat, tag)
+    R.count('%s:sessions' % tag, len(sessions))
+
+
+def check_history_independence(R, sessions, results, work, procs):
+    """the generated source of a program is a function of the program: member k
+    of a session (k >= 1) must get the text a fresh process generates for it"""
+    jobs = Jobs(work, procs)
+    ref = {}
+    for si, (specs, res) in enumerate(zip(sessions, results)):
+        for k in range(1, len(res['outs'])):
+            ref[(si, k)] = jobs.submit([specs[k]], 'codetext')
+    done = jobs.wait() if ref else {}
+    for (si, k), jid in sorted(ref.items()):
+        a = done[jid]
+        o = results[si]['outs'][k]
+        if not a['outs'] or 'code' not in a['outs'][0] or 'code' not in o:
+            R.count('history-independence:not-comparable')
+            continue
+        c1, c2 = a['outs'][0]['code'], o['code']
+        R.count('history-independence:compared')
+        R.d['traces_validated_against_impl'] += 1
+        if c1 != c2:
+            l1, l2 = c1.split('\n'), c2.split('\n')
+            j = next((i for i, (x, y) in enumerate(zip(l1, l2)) if x != y), min(len(l1), len(l2)))
+            R.disagree(session_case(sessions[si], k),
+                       'the source a fresh process generates for the last program (sha1 %s), line %d: %s'
+                       % (hashlib.sha1(c1.encode()).hexdigest()[:10], j + 1,
+                          l1[j].strip() if j < len(l1) else '<end>'),
+                       'sha1 %s, line %d: %s' % (hashlib.sha1(c2.encode()).hexdigest()[:10], j + 1,
+                                                  l2[j].strip() if j < len(l2) else '<end>'),
+                       'generated source of a program built after others in the same process '
+                       '(%s after %s)' % (sessions[si][k].get('mut'),
+                                          [x.get('mut') for x in sessions[si][:k]]))
+    for res in results:
+        for o in res['outs']:
+            o.pop('code', None)
+
+
 def corpus_specs():
     """minimised programs that exercised past problems; always run first"""
     src = '\n\n'.join([
@@ -2064,6 +2759,38 @@ def corpus_specs():
         {'name': 'sweep', 'post': cb('q1', add=7.0), 'subs': [
             {'name': 'correction', 'cond': {'lt': 0.5}, 'post': cb('m', add=1.0), 'real': True,
              'eqs': [summ, add(1.0)]}]}]
+    # (minimised from a seeded defect) the loop limits of a group at their
+    # boundary values: the integer 0 as a stop, start == stop, a stop given by
+    # a constant whose value is 0, by a property, the defaults, limits beyond
+    # the real particles.  16 particles per array, 2 of them ghosts.
+    lim_arrays = copy.deepcopy(arrays)
+    lim_arrays[0].update(iconsts={'nlo': 1, 'nhi': 0}, ifirst={'plo': 2, 'phi': 13})
+    lim_arrays[1].update(iconsts={'nlo': 0, 'nhi': 5}, ifirst={'plo': 0, 'phi': 0})
+
+    def addto(dest, ca):
+        return {'cls': 'gen:C02CorpusAdd', 'dest': dest, 'sources': None, 'kw': {'ca': ca}}
+
+    def sumto(dest, srcs):
+        return {'cls': 'gen:C02CorpusSum', 'dest': dest, 'sources': srcs, 'kw': {}}
+    limit_groups = [
+        {'real': True, 'stop': 0, 'eqs': [addto('fluid', 1.0), sumto('fluid', ['fluid', 'solid'])]},
+        {'real': True, 'start': 0, 'stop': None, 'eqs': [addto('fluid', 2.0)]},
+        {'real': True, 'start': 3, 'stop': 3, 'eqs': [addto('solid', 4.0), sumto('solid', ['fluid'])]},
+        {'real': False, 'stop': 'nhi', 'eqs': [addto('fluid', 8.0), addto('solid', 16.0),
+                                               sumto('solid', ['solid'])]},
+        {'real': True, 'start': 'plo', 'stop': 'phi', 'eqs': [addto('fluid', 32.0), sumto('fluid', ['solid']),
+                                                              addto('solid', 64.0)]},
+        {'real': True, 'start': 'nlo', 'eqs': [sumto('fluid', ['fluid']), sumto('solid', ['fluid'])]},
+        {'real': False, 'start': 14, 'stop': 16, 'eqs': [addto('fluid', 128.0)]},
+        {'real': True, 'start': 5, 'stop': 2, 'eqs': [addto('solid', 256.0)]},
+        {'subs': [{'real': True, 'stop': 0, 'eqs': [addto('solid', 512.0)]},
+                  {'real': True, 'stop': 1, 'eqs': [addto('solid', 1024.0)]}]}]
+    # (finding on the pinned tree) two instances of one class whose attribute
+    # is a float in one and an int in the other (the class is typed from the
+    # last instance of the whole program)
+    differ_groups = [
+        {'real': True, 'eqs': [addto('fluid', 0.5), addto('solid', 3)]},
+        {'real': True, 'eqs': [addto('fluid', 0.25), addto('solid', 1)]}]
     return [{'label': 'corpus-src-dst', 'mod': src, 'arrays': arrays,
              'groups': [{'real': True, 'eqs': [
                  {'cls': 'gen:C02CorpusA', 'dest': 'fluid', 'sources': ['solid'], 'kw': {}},
@@ -2073,14 +2800,76 @@ def corpus_specs():
             {'label': 'corpus-groups-sharing-a-name', 'groups_mode': 'shared-names',
              'mod': src2, 'arrays': arrays, 'groups': same_names,
              'kernel': 'CubicSpline', 'dim': 2, 't': 0.0, 'dt': 0.01, 'data_seed': 11,
+             'compile': True, 'tol': 0.0},
+            {'label': 'corpus-loop-limits-at-the-boundaries', 'groups_mode': 'plain',
+             'mod': src2, 'arrays': lim_arrays, 'groups': limit_groups,
+             'kernel': 'Gaussian', 'dim': 2, 't': 0.0, 'dt': 0.01, 'data_seed': 13,
+             'compile': True, 'tol': 0.0},
+            {'label': 'instances-differ-in-attribute-type', 'groups_mode': 'plain',
+             'mod': src2, 'arrays': arrays, 'groups': differ_groups,
+             'kernel': 'CubicSpline', 'dim': 2, 't': 0.0, 'dt': 0.01, 'data_seed': 17,
              'compile': True, 'tol': 0.0}]
+
+
+def corpus_sessions():
+    """(minimised from a seeded defect) evaluators built one after the other in
+    one process: the same class with an int attribute first and a float one
+    next; a class re-defined under the same name with another loop; the first
+    program again; bool after float"""
+    def module(variant):
+        return '\n\n'.join([
+            'from pysph.sph.equation import Equation',
+            'class C02SessScale(Equation):\n'
+            '    def __init__(self, dest, sources, ca=1.0):\n'
+            '        self.ca = ca\n'
+            '        super(C02SessScale, self).__init__(dest, sources)\n\n'
+            '    def initialize(self, d_idx, d_q0, d_m):\n'
+            '        d_q0[d_idx] = self.ca*d_m[d_idx]\n',
+            'class C02SessSource(Equation):\n'
+            '    def loop(self, d_idx, s_idx, d_q1, s_m):\n'
+            '        d_q1[d_idx] += %s\n' % (
+                's_m[s_idx]' if variant == 0 else 's_m[s_idx]*s_m[s_idx] - 1.0')]) + '\n'
+    arrays = [{'name': nm, 'n': 16, 'props': full_props(), 'consts': {'c0': 1, 'cv': 3},
+               'nghost': 2} for nm in ('fluid', 'solid')]
+
+    def member(variant, ca, seed, mut):
+        return {'label': 'corpus-session', 'groups_mode': 'plain', 'mut': mut,
+                'mod': module(variant), 'arrays': arrays,
+                'groups': [{'real': True, 'eqs': [
+                    {'cls': 'gen:C02SessScale', 'dest': 'fluid', 'sources': None, 'kw': {'ca': ca}},
+                    {'cls': 'gen:C02SessSource', 'dest': 'fluid', 'sources': ['fluid', 'solid'], 'kw': {}}]}],
+                'kernel': 'CubicSpline', 'dim': 2, 't': 0.0, 'dt': 0.01, 'data_seed': seed,
+                'compile': True, 'tol': 0.0}
+    # shipped equations: BodyForce with integer parameters first (gravity
+    # (0, -10, 0) typed the way people type it), with float parameters next
+    def shipped_member(kw, seed, mut):
+        sp = shipped_program(random.Random(seed), [
+            ('pysph.sph.basic_equations', 'BodyForce', kw, False),
+            ('pysph.sph.basic_equations', 'SummationDensity', {}, False)], dim=2)
+        sp.update(label='corpus-session-shipped', mut=mut, kernel='CubicSpline')
+        return sp
+    return [[member(0, 2, 21, 'first'), member(0, 0.5, 22, 'retype-attrs'),
+             member(1, 0.5, 23, 'redefine-classes'), member(0, 2, 24, 'repeat'),
+             member(1, True, 25, 'retype-attrs')],
+            [shipped_member({'fx': 1, 'fy': -10, 'fz': 0}, 31, 'first'),
+             shipped_member({'fx': 0.5, 'fy': -9.81, 'fz': 0.25}, 32, 'retype-attrs')]]
 
 
 def main():
     if '--worker-task' in sys.argv:
         tf = sys.argv[sys.argv.index('--worker-task') + 1]
         of = sys.argv[sys.argv.index('--worker-out') + 1]
-        spec, work, mode = json.load(open(tf))
+        task = json.load(open(tf))
+        if isinstance(task, dict):
+            # a job: the programs one after the other in THIS process; one
+            # line of output per completed member
+            with open(of, 'w') as fh:
+                for spec in task['specs']:
+                    o = run_program((spec, task['work'], task['mode']))
+                    fh.write(json.dumps(o) + '\n')
+                    fh.flush()
+            sys.exit(0)
+        spec, work, mode = task
         o = run_program((spec, work, mode))
         with open(of, 'w') as fh:
             json.dump(o, fh)
@@ -2094,8 +2883,16 @@ def main():
         'generated classes in the documented subset or shipped equations; one level of '
         'sub-groups, condition/pre/post callables, explicit group names: unique or the '
         'SAME name on several groups / sub-groups with callables of their own and '
-        'conditions of different outcome) parsed and compared with the model wiring, '
-        'every condition/pre/post call site with the position of its own group; '
+        'conditions of different outcome; start_idx / stop_idx: None, integers at the '
+        'boundaries 0 / n_real / n / start, names of integer constants / properties; '
+        'instance attributes of type float / int / bool with values per instance) parsed and '
+        'compared with the model wiring, every condition/pre/post call site with the position '
+        'of its own group, the loop limits of every destination block evaluated on the arrays, '
+        'the attribute declarations of every wrapper class; SESSIONS of 3-5 programs built '
+        'one after the other in one process (same class / array / group names; other attribute '
+        'types, other method bodies, other array types, other wiring, other limits, the same '
+        'program again), every member checked like a single program and its generated source '
+        'compared with the one a fresh process generates; '
         '(c) the compiled programs among them '
         'executed and compared with the pure-Python executor. distinct = distinct '
         'driver line / program spec; non-trivial = sort of >1 key that succeeds, '
@@ -2110,6 +2907,19 @@ def main():
             # in a process of its own: the replayed program may crash
             r = run_isolated([case['spec']], work, 'full', 1)[0]
             fails = list(r['fail']) + ([] if r['ok'] else [('error', '', r['err'])])
+            print(json.dumps(fails, indent=1))
+            sys.exit(1 if fails else 0)
+        if case.get('kind') == 'session':
+            # the whole history in one fresh process; the verdict is the last member's
+            J = Jobs(work, 1)
+            jid = J.submit(case['specs'], 'full')
+            res = J.wait()[jid]
+            fails = []
+            if res['outs'] and len(res['outs']) == len(case['specs']):
+                r = res['outs'][-1]
+                fails = list(r['fail']) + ([] if r['ok'] else [('error', '', r['err'])])
+            if res['died'] is not None:
+                fails.append(('died', '', json.dumps(res['died'])))
             print(json.dumps(fails, indent=1))
             sys.exit(1 if fails else 0)
         if case.get('kind') == 'sort':
@@ -2150,6 +2960,16 @@ def main():
     collect(R, res, 'code-only')
     R.note('tie (b) on %d uncompiled programs took %.0fs' % (len(code_only), time.time() - t1))
     t2 = time.time()
+    # (d) compiled sessions are started first and run beside the single programs
+    musts = [('retype-attrs', 'redefine-classes'), ('redefine-classes', 'retype-attrs'),
+             ('relimit', 'retype-attrs'), ('retype-arrays', 'rewire'), ('rewire', 'redefine-classes')]
+    c_sessions = list(corpus_sessions())
+    for k in range(3 if quick else 12):
+        c_sessions.append(gen_session(rng, True, 4, musts[k % len(musts)]))
+    nsess_procs = min(len(c_sessions), 5 if quick else 6)
+    cj = Jobs(work, nsess_procs)
+    c_ids = [cj.submit(ss, 'full') for ss in c_sessions]
+    cj.pump()
     compiled = list(corpus_specs())
     ngen = 7 if quick else 60
     compiled += [gen_program(rng, compile_=True,
@@ -2159,7 +2979,7 @@ def main():
     rng.shuffle(pool)
     nship = 6 if quick else 0
     for k in range(nship):
-        grp = pool[k * 3:(k + 1) * 3] or pool[:3]
+        grp = distinct_names(pool[k * 3:(k + 1) * 3] or pool[:3])
         compiled.append(shipped_program(rng, grp))
     if not quick:
         for e in shipped:
@@ -2174,12 +2994,35 @@ def main():
                 compiled.append(shipped_program(rng, [e], dim=2))
             except Exception as ex:   # noqa
                 R.count('discovered:unbuildable')
-    res = run_batch(compiled, work, 'full', procs)
+    res = run_batch(compiled, work, 'full', max(2, procs - nsess_procs))
     collect(R, res, 'compiled')
     R.note('tie (c) on %d compiled programs took %.0fs' % (len(compiled), time.time() - t2))
-    if a.broken or R.d['disagreements'] or R.d['property_failures']:
+    done = cj.wait()
+    settle_sessions(R, c_sessions, [done[j] for j in c_ids], work, procs, 'full', 'compiled-session')
+    R.note('(d) %d compiled sessions (%d programs) done after %.0fs' % (
+        len(c_sessions), sum(len(x) for x in c_sessions), time.time() - t2))
+    t3 = time.time()
+    # (d) uncompiled sessions: many more histories, source level only
+    u_sessions = [gen_session(rng, False, rng.choice([3, 3, 4, 5]),
+                              (MUTATIONS[k % len(MUTATIONS)],))
+                  for k in range(18 if quick else 150)]
+    uj = Jobs(work, procs)
+    u_ids = [uj.submit(ss, 'codetext') for ss in u_sessions]
+    done = uj.wait()
+    u_res = [done[j] for j in u_ids]
+    check_history_independence(R, u_sessions, u_res, work, procs)
+    settle_sessions(R, u_sessions, u_res, work, procs, 'codeonly', 'code-only-session')
+    R.note('(d) %d uncompiled sessions (%d programs) took %.0fs' % (
+        len(u_sessions), sum(len(x) for x in u_sessions), time.time() - t3))
+    try:
+        known = {e['key'] for e in H.vlib.known_findings('C02') if e.get('kind') == 'known'}
+    except Exception:   # noqa
+        known = set()
+    if a.broken or R.d['disagreements'] or \
+            any(f.get('key') not in known for f in R.d['property_failures']):
         # failing-input search on the real code: more compiled programs, every
-        # precomputed symbol in use
+        # precomputed symbol in use; more compiled sessions (not for a listed
+        # known finding alone)
         rng2 = random.Random(a.seed + 4242)
         extra = []
         for k in range(12):
@@ -2187,10 +3030,16 @@ def main():
                             groups_mode='shared-names' if k % 3 == 1 else None)
             extra.append(s)
         for k in range(4):
-            extra.append(shipped_program(rng2, pool[k * 2:(k + 1) * 2] or pool[:2]))
-        res = run_batch(extra, work, 'full', procs)
+            extra.append(shipped_program(rng2, distinct_names(pool[k * 2:(k + 1) * 2] or pool[:2])))
+        x_sessions = [gen_session(rng2, True, 4, musts[k % len(musts)]) for k in range(4)]
+        xj = Jobs(work, 4)
+        x_ids = [xj.submit(ss, 'full') for ss in x_sessions]
+        xj.pump()
+        res = run_batch(extra, work, 'full', max(2, procs - 4))
         collect(R, res, 'search')
-        R.d['search'] = {'extra_programs': len(extra),
+        done = xj.wait()
+        settle_sessions(R, x_sessions, [done[j] for j in x_ids], work, procs, 'full', 'search-session')
+        R.d['search'] = {'extra_programs': len(extra), 'extra_sessions': len(x_sessions),
                          'found': len(R.d['property_failures'])}
     if R.d.get('errors') and len(R.d['errors']) > (2 if quick else 40):
         R.write(a.out)
